@@ -277,7 +277,11 @@ fn run(ctx: &Ctx) {
     if !ctx.run_prop("any_years_with_events", RULE, ctx.cases(1000, 120_000), strat_wide, check) {
         return;
     }
-    ctx.run_prop("zero_and_mixed_results", RULE, ctx.cases(800, 60_000), strat_zero, check);
+    if !ctx.run_prop("zero_and_mixed_results", RULE, ctx.cases(800, 60_000), strat_zero, check) {
+        return;
+    }
+    // exemption override *files* (working directory / $HOME/.config/cgt-tool) through the real CLI
+    crate::props::proc_checks::c07_cli(ctx);
 }
 
 fn replay(name: &str, case: &Value) -> Option<Verdict> {
@@ -285,7 +289,7 @@ fn replay(name: &str, case: &Value) -> Option<Verdict> {
         "embedded_range_years" | "any_years_with_events" | "zero_and_mixed_results" => {
             Some(replay_case::<Case, _>(case, check).unwrap_or_else(Verdict::Fail))
         }
-        _ => None,
+        other => crate::props::proc_checks::replay(other, case),
     }
 }
 
